@@ -193,3 +193,23 @@ func Verif_C11_letter_case() {
 	other := m.MatchDomainBitmap("x" + string(c) + "b.b")
 	vs.Assert("and a different name does not", other[0] == 0)
 }
+
+// Verif_C07_qname_marker_bytes (registered under C07, whose statement covers "any name"; C11 only
+// speaks about names made of letters, digits, '-', '_' and '.'): the matcher keeps '^' and '$' for its own use (start and end of a name inside
+// its keys). A queried name that itself contains such a byte - names come from DNS questions and
+// sniffed TLS/HTTP hosts, so from the network - must still be judged as the literal string it is:
+// a full pattern matches only the identical name, a suffix pattern the name itself or a name ending
+// in '.'+pattern.
+func Verif_C07_qname_marker_bytes() {
+	w := &c11AC{pats: map[*ahocorasick.Matcher][][]byte{}}
+	c11Install(w)
+	kind := []consts.RoutingDomainKey{consts.RoutingDomainKey_Full, consts.RoutingDomainKey_Suffix}[vs.Choice("kind", 2)]
+	pattern := []string{"a", "a.b"}[vs.Choice("pattern", 2)]
+	m := NewAhocorasickSlimtrie(nil, 64)
+	m.AddSet(2, []string{pattern}, kind)
+	vs.Assert("matcher builds", m.Build() == nil)
+	name := c11Sym("name", len(pattern)+1+vs.Choice("name.extra", 2), "ab.^$")
+	vs.Assume(name[0] != '.' && name[len(name)-1] != '.')
+	bm := m.MatchDomainBitmap(name)
+	vs.Assert("a name containing the matcher's own marker bytes is matched as the string it is", (bm[0]&(1<<2) != 0) == c11Matches(kind, pattern, name))
+}
